@@ -21,7 +21,7 @@ RULE = ("models x N in 2..4 x every missing-data mask of the n_y x N panel x dev
         "(model, N, mask, deviation, data) with at least one observed cell")
 MANIFEST_ENTRY = dict(level="exploration", design="DESIGN.md section 4 / C08",
     technique="bounded-exhaustive enumeration of all missing-data masks on generated state-space models; data reproduction, residual substitution into the harness's own equations, re-simulation and level/deviation differential oracles",
-    text="For the 13 (quick) / 18 (thorough) solved models of C03 and 3 unit-root trend-cycle models under the default diffuse initialisation (incl. log observables, lagged state in the measurement equation, no-measurement-shock and forward-looking models), every N in 2..4 and EVERY missing-data mask: smoothed and updated medians equal the data in every observed cell; every measurement equation holds in every observed cell with smoothed states and smoothed measurement shocks; every transition equation of a backward-looking model holds exactly with the smoothed shocks; simulating the model (real first-order simulator) from the smoothed initial condition with the smoothed shocks reproduces the smoothed variables; the filter in deviation mode on data minus (over, for log-variables) the harness's own steady state equals level-mode results minus steady state (stationary models).",
+    text="For the 13 (quick) / 18 (thorough) solved models of C03 and 3 unit-root trend-cycle models under the default diffuse initialisation (incl. log observables, lagged state in the measurement equation, no-measurement-shock and forward-looking models), every N in 2..4 and EVERY missing-data mask: smoothed and updated medians equal the data in every observed cell; every measurement equation holds in every observed cell with smoothed states and smoothed measurement shocks; every transition equation of a backward-looking model holds exactly with the smoothed shocks; simulating the model (real first-order simulator) from the smoothed initial condition with the smoothed shocks reproduces the smoothed variables; the filter in deviation mode on data minus (over, for log-variables) the harness's own steady state equals level-mode results minus steady state (stationary models); with shock means supplied as data (an unanticipated mean and an anticipated shock known from the start) the data are reproduced and the re-simulation holds with the given anticipated shocks.",
     note="Trusted: ref/linre.py equations and steady state; first-order simulator (C01). prepend_initial is not used (it crashes on this code base - adjacent defect outside the statement), so equations needing pre-sample smoothed states are checked from the first period where all lags are inside the span.")
 ASSUMPTIONS = ["the first-order simulator is correct (C01)"]
 
@@ -163,6 +163,80 @@ def check_config(spec, m, N, dev, res, ctx, only_mask=None):
     res.sample({"model": name, "N": N, "deviation": dev, "masks": 2 ** (ny * N) - 1})
 
 
+def check_shocks_from_data(spec, m, N, dev, res, ctx):
+    """shock means supplied as data (shocks_from_data=True): an unanticipated mean and an anticipated shock known from the
+    start; the smoothed estimates must reproduce the data and be a simulation of the model under the smoothed
+    unanticipated shocks together with the given anticipated ones"""
+    if N < 3:
+        return
+    ny = len(spec.meas)
+    is_log = spec.log
+    amp = 0.1 if is_log else 1.0
+    ss_vec = spec.steady()
+    if ss_vec is None:
+        ss_vec = np.zeros(spec.n)
+    ss = {spec.obs(k): sum(c * ss_vec[j] for (j, s_, c) in e["terms"]) + e.get("const", 0.0) for k, e in enumerate(spec.meas)}
+    pat = c03.data_patterns(ny, N, ctx.seed)[1] * (0.1 if is_log else 1.0)
+    masks = list(c03.all_masks(ny, N))
+    extra = {"ant_" + spec.shk(spec.n - 1): [0.0, 0.0, 0.8 * amp] + [0.0] * (N - 3), spec.shk(0): [0.0, 0.3 * amp] + [0.0] * (N - 2)}
+    L = spec.max_lag()
+    for mask in (masks[-1], masks[len(masks) // 2 + 1] if len(masks) > 2 else masks[-1]):
+        if not mask.any():
+            continue
+        lev = np.array([[(0.0 if dev else ss[spec.obs(i)]) + pat[i, t] for t in range(N)] for i in range(ny)])
+        data = lev
+        impl = np.exp(lev) if is_log else lev
+        case = {"spec": spec.to_json(), "N": N, "deviation": dev, "mask": mask.astype(int).tolist(), "shocks_from_data": True}
+
+        def bad(check, detail, **kw_):
+            sig = {"deviation": dev, "log": is_log, "ny": ny, "backward": spec.max_lead() == 0, "what": "shocks_from_data"}
+            sig.update(kw_)
+            res.violation(check, sig, case, "%s N=%d dev=%s mask=%s shocks_from_data: %s" % (spec.name, N, dev, mask.astype(int).tolist(), detail))
+        res.ev()
+        try:
+            f = c03.Filtered(spec, m, impl, mask, N, dev, False, None, extra=extra, shocks_from_data=True)
+        except Exception as e:
+            bad("exception", "%s: %s" % (type(e).__name__, str(e)[:300]), error=type(e).__name__)
+            continue
+        res.nt((spec.name, N, dev, mask.tobytes(), "shocks_from_data"))
+        res.count("shocks_from_data_runs")
+        sm = f.out["smooth_med"]
+        fr = (lambda a: np.log(a)) if is_log else (lambda a: a)
+        for i in range(ny):
+            got = fr(series_of(sm, spec.obs(i), N))
+            for t in range(N):
+                if mask[i, t] and not np.isclose(got[t], data[i, t], rtol=1e-9, atol=1e-9):
+                    bad("data_not_reproduced", "smooth_med %s[%d] = %.12g, data %.12g" % (spec.obs(i), t, got[t], data[i, t]))
+        for j in range(spec.n):
+            a_in = np.array(extra.get("ant_" + spec.shk(j), [0.0] * N))
+            a_out = np.nan_to_num(series_of(sm, "ant_" + spec.shk(j), N))
+            if not np.allclose(a_in, a_out, atol=1e-12):
+                bad("anticipated_input_changed", "ant_%s returned %s, input %s" % (spec.shk(j), a_out.tolist(), a_in.tolist()))
+        t0 = max(L, 1)
+        try:
+            span = (START + t0) >> (START + N - 1)
+            db = ir.Databox.steady(m, span, deviation=dev)
+            for j in range(spec.n):
+                v = series_of(sm, spec.var(j), N)
+                for t in range(t0):
+                    db[spec.var(j)][START + t] = v[t]
+                e_ = series_of(sm, spec.shk(j), N)
+                a_ = np.array(extra.get("ant_" + spec.shk(j), [0.0] * N))
+                for t in range(t0, N):
+                    db[spec.shk(j)][START + t] = e_[t]
+                    db["ant_" + spec.shk(j)][START + t] = a_[t]
+            with contextlib.redirect_stdout(io.StringIO()):
+                out = m.simulate(db, span, method="first_order", deviation=dev)
+            res.ev()
+            for j in range(spec.n):
+                a = series_of(out, spec.var(j), N, lo=t0)
+                b = series_of(sm, spec.var(j), N, lo=t0)
+                if not np.allclose(a, b, rtol=1e-8, atol=1e-9):
+                    bad("resimulation", "%s: simulated %s, smoothed %s" % (spec.var(j), np.round(a, 9).tolist(), np.round(b, 9).tolist()))
+        except Exception as e:
+            bad("exception", "re-simulation: %s: %s" % (type(e).__name__, str(e)[:300]), error=type(e).__name__)
+
+
 def all_models(tier):
     return c03.models(tier) + c03.unit_root_models(tier)
 
@@ -172,6 +246,7 @@ def shard(item, res, ctx):
     m = c03.build(spec)
     m.assign(**c03.std_settings(spec, item["N"], ctx.seed)[0][1])
     check_config(spec, m, item["N"], item["dev"], res, ctx)
+    check_shocks_from_data(spec, m, item["N"], item["dev"], res, ctx)
 
 
 def run(ctx, total, info):
@@ -185,7 +260,7 @@ def run(ctx, total, info):
     shards.sort(key=lambda s: -s["w"])
     engine.run_shards(__name__, "shard", shards, ctx, total)
     info["exhaustive"] = True
-    info["floors"] = {"cases": (len(total.nontrivial), 800)}
+    info["floors"] = {"cases": (len(total.nontrivial), 800), "shocks_from_data_runs": (total.counters.get("shocks_from_data_runs", 0), 60)}
 
 
 def replay(case):
